@@ -19,10 +19,12 @@ from ..cfg import CFG, node_calls
 LEVEL = "other"
 TECHNIQUE = ("pipeline-order and CFG dominance checks on the injection filter; classification of every yield of the serializer "
              "by the encoder it passes through; constant folding of the reverse entity map")
-CLAIM = ("Whenever an output encoding is requested the declaration filter runs first; on every path through it a document "
-         "head ends up with a meta declaring the requested encoding (injected iff none was rewritten) and no token is lost; "
-         "every piece of text or attribute value is encoded with the handler that replaces unencodable characters by "
-         "references that decode back to them, and markup is encoded strictly.")
+CLAIM = ('Whenever an output encoding is requested the declaration filter runs first; on every path through it '
+         'a document head ends up with a meta declaring the requested encoding (injected iff none was '
+         'rewritten) and no token is lost; every piece of text or attribute value is encoded with the handler '
+         'that replaces unencodable characters by references that decode back to them, and markup is encoded '
+         'strictly. A declaration is recorded as found only on paths that rewrote or injected one; the http- '
+         'equiv flag is reset for every meta token.')
 NOT_DECIDED = ("that the bytes decode to the same tree (prescan, re-parse, codecs); streams without a head end tag; labels "
                "that codecs.lookup and the reading side resolve differently.")
 MODULES = ["filters/inject_meta_charset.py", "serializer.py", "constants.py"]
